@@ -57,6 +57,11 @@ def run_tests(items, timeout=300, scratch=None):
                 logs.append(out[-4000:])
                 ok = re.findall(r'^RAC-OK (\S+) (.*)$', out, re.M)
                 cex = re.findall(r'^RAC-CEX (\S+) (.*)$', out, re.M)
+                if not ok and not cex and rc not in (0, -9):
+                    # the test ran and died outside the check's own catch_unwind: the code under check panicked
+                    pm = re.search(r"^thread '[^']*' \(?\d*\)? ?panicked at ([^\n]*)\n([^\n]*)", out, re.M)
+                    if pm and re.search(r'test result: FAILED', out) and '/verif/rac/' not in pm.group(1):
+                        cex = [(it['test'], json.dumps({'why': 'the code under check panicked', 'at': pm.group(1).strip(), 'message': pm.group(2).strip()}))]
                 ran = re.search(r'test result: (\w+)\. (\d+) passed; (\d+) failed', out)
                 results[it['test']] = {'rc': rc, 'ok': ok, 'cex': cex, 'ran': ran.groups() if ran else None, 'cmd': ' '.join(cmd),
                                        'wall_s': round(time.time() - t0, 1), 'tail': out[-1500:]}
